@@ -12,7 +12,8 @@ harness/c16_assembly_2l.cpp  two-level (inter-mesh) patterns on permuted meshes 
 import json, os, shutil, glob, time
 import concurrent.futures as cf
 import random
-import vlib, vmeshlib
+import vlib
+import c16x, vmeshlib
 
 LEVEL = "model_checking"
 MESHDIR = os.path.join(vlib.REPO, "data", "meshes")
@@ -451,10 +452,20 @@ def _run(chk, tier, gdir):
         "(disc1: FEAT's own node functionals)",
         "the claimed mesh class (box / affine / general) is verified by the specification from the dumped integer coordinates",
         "threading is out of scope (C17): DomainAssembler runs with 0 worker threads"]
+    # extension (lib/c16x.py): TraceAssembler selection machine + facet integrals, error computers / function-integral jobs, filter
+    # assemblers, remaining common operators; adds to chk.traces
+    c16x.run_ext(chk)
+
 
 
 def replay(obj):
     """re-execute the cases of a replay file through the harness and the specification; rc 1 if a verdict still fails"""
+    ext = [v for v in obj["violations"] if v.get("replay") and str(v["replay"].get("harness", "")).startswith("c16x")]
+    if ext:
+        import importlib.util
+        sp = importlib.util.spec_from_file_location("check_C16x", os.path.join(vlib.VERIF, "checks", "C16x.py"))
+        m = importlib.util.module_from_spec(sp); sp.loader.exec_module(m)
+        return m.replay({"violations": ext})
     tmp = os.path.join(vlib.BUILD, "gen", "C16", "replay_%d" % os.getpid())
     os.makedirs(tmp, exist_ok=True)
     chk = vlib.Check("C16")
